@@ -17,7 +17,8 @@ SEQS = [["list", ["uint", 8], 1024], ["list", ["uint", 1], 2048], ["vec", ["uint
         ["cont", [["uint", 8]] * 9], ["list", ["union", True, [["uint", 1]]], 17]]
 RULE = ("17 sequence / bitfield / container types + random ones x values whose lengths sweep 0..2^d+1 for d<=6 "
         "(thorough: all of them; quick: a sample) so the stack iterators cross every subtree boundary, + random values; "
-        "read paths: len, x[i] for every i, in-range slices, iter(), readonly_iter(), container iteration, bit "
+        "read paths: len, x[i] for every i, in-range slices (all (a, b) for short sequences, else both empty ends, whole, "
+        "prefixes, suffixes, omitted bounds and random inner ones), iter(), readonly_iter(), container iteration, bit "
         "iteration, to_obj — compared with the model's get and iterator machines and (model-free) with each other; "
         "pairs (equal content via different routes / one-element difference) for == and hash; "
         "non-trivial = length >= 2")
@@ -72,6 +73,29 @@ def elem_obs(e, x):
     return bytes(x.hash_tree_root())
 
 
+def slice_bounds(ll, seed):
+    """in-range slices: all of them for short sequences, else the edges (empty at both ends, whole, prefixes, suffixes,
+    omitted bounds) and a few inner ones"""
+    if ll <= 9:
+        out = [(a, b) for a in range(ll + 1) for b in range(a, ll + 1)]
+    else:
+        import random
+        r = random.Random(seed)
+        out = [(0, 0), (0, 1), (0, ll), (ll, ll), (ll - 1, ll), (1, ll - 1), (ll // 3, ll - ll // 4)]
+        out += [tuple(sorted((r.randrange(0, ll + 1), r.randrange(0, ll + 1)))) for _ in range(6)]
+    return out + [(None, 0), (None, ll // 2), (ll // 2, None), (None, None), (0, None), (None, ll)]
+
+
+def slices_disagree(x, idx, conv, seed):
+    ll = len(idx)
+    for a, b in slice_bounds(ll, seed):
+        got = attempt(lambda: [conv(z) for z in x[a:b]], anyerr=True)
+        if got != idx[a:b]:
+            return "slice [%s:%s] of a sequence of length %d disagrees with indexing" % (
+                "" if a is None else a, "" if b is None else b, ll)
+    return None
+
+
 def build(inp):
     t, v, w = inp["t"], inp["v"], inp["w"]
     x, y = to_py(t, v), to_py(t, w)
@@ -83,13 +107,11 @@ def build(inp):
         idx = [elem_obs(e, x[i]) for i in range(ll)]
         ro = attempt(lambda: [elem_obs(e, z) for z in x.readonly_iter()], anyerr=True)
         it = [elem_obs(e, z) for z in iter(x)]
-        a, b = (ll // 3, ll - ll // 4) if ll else (0, 0)
-        sl = [elem_obs(e, z) for z in x[a:b]]
         ob = x.to_obj()
         if it != idx:
             why = "iter() disagrees with indexing"
-        elif sl != idx[a:b]:
-            why = "slice [%d:%d] disagrees with indexing" % (a, b)
+        elif slices_disagree(x, idx, lambda z: elem_obs(e, z), ll):
+            why = slices_disagree(x, idx, lambda z: elem_obs(e, z), ll)
         elif len(ob) != ll:
             why = "to_obj() length disagrees with len()"
         elif is_basic(e) and e[0] == "uint" and e[1] <= 8 and [int(z) for z in ob] != [int.from_bytes(z, "little") for z in idx]:
@@ -99,9 +121,7 @@ def build(inp):
         ll = len(x)
         idx = [bool(x[i]) for i in range(ll)]
         it = attempt(lambda: [bool(z) for z in iter(x)], anyerr=True)
-        a, b = (ll // 3, ll - ll // 4) if ll else (0, 0)
-        if [bool(z) for z in x[a:b]] != idx[a:b]:
-            why = "slice disagrees with indexing"
+        why = slices_disagree(x, idx, bool, ll)
         reads = [ll, idx, it]
     else:
         ll = len(t[1])
